@@ -177,6 +177,9 @@ def random_scenario(rng: random.Random, focus: str) -> tuple[dict, list[dict]]:
         else:
             ret = {"kind": rng.choice(["nan", "pinf", "ninf"]), "v": 0}
         ev.append({"e": "strategy", "ret": ret})
+        ev.append({"e": "classify", "dur": rng.choice([0, 0, 0, 1, 4])})
+        ev.append({"e": "rclassify", "dur": rng.choice([0, 0, 0, 2])})
+        ev.append({"e": "emit", "dur": rng.choice([0, 0, 0, 1, 3])})
         for _p in range(3):
             ev.append({"e": "poll", "ans": rng.random() < 0.06})
         ev.append({"e": "handler", "dec": rng.choice(["sleep", "sleep", "sleep", "defer", "abort"])})
